@@ -205,23 +205,6 @@ def run(chk):
                         budget_tests.append((h, a))
     if loop_ok is None or not budget_tests:
         chk.unknown("O17.3", "loop guard / handler budget tests are not comparisons of the counter with an integer constant", L)
-    else:
-        texts = {u(a) for _, a in budget_tests}
-        chk.ob("O17.3", "all handlers use the same budget test", len(texts) == 1, budget_tests[0][1], f"budget tests: {sorted(texts)}")
-        hb = cmp_fn(budget_tests[0][1])
-        # simulate: every attempt fails transiently
-        c, attempts, end = 0, 0, None
-        while attempts < 1000:
-            if not loop_ok(c):
-                end = "silent loop exit (returns None)"
-                break
-            c += 1
-            attempts += 1
-            if not hb(c):
-                end = "raise"
-                break
-        chk.ob("O17.3", "1 + 10 attempts", attempts == 11, L, f"simulated attempts with `{u(L.test)}` / `{u(budget_tests[0][1])}`: {attempts}")
-        chk.ob("O17.3", "exhausting the budget ends in a raise", end == "raise", L, f"ends by {end}")
     tail = gd.body[gd.body.index(L) + 1:] if L in gd.body else []
     chk.ob("O17.3", "nothing after the loop (no stale return)", not tail and not L.orelse, tail[0] if tail else L, "")
     # back-off
@@ -273,13 +256,13 @@ def run(chk):
                 return h, names
         return None, None
 
-    def interpret(h, status, budget):
+    def interpret(h, status, c):
         ev = h.name
 
         def atom(n, env):
             t = u(n)
-            if cmp_fn(n) is not None and any(n is a or u(n) == u(a) for _, a in budget_tests):
-                return budget
+            if cmp_fn(n) is not None:
+                return cmp_fn(n)(c)
             if ev and t in (f"{ev}.status_code in self.retryable_status_codes",):
                 return status in code_set
             if ev and t in (f"{ev}.status_code not in self.retryable_status_codes",):
@@ -323,18 +306,20 @@ def run(chk):
 
         return decide(h.body, atom, {}, on_stmt=on_stmt)
 
+    # counter values inside the handler: 1 = first attempt, 10 = tenth attempt (one retry left), 11 = the attempt after the tenth retry (budget exhausted)
+    simulated = set()
     for label, cls, status, kind in CASES:
         h, names = select(cls)
-        for budget in (True, False):
-            inst = f"{label} | budget left={budget}"
-            key = f"{_M}:EsClient.guarded:{label}|{budget}"
+        for c, budget in ((1, True), (10, True), (11, False)):
+            inst = f"{label} | budget left={budget}" + (" (last retry)" if c == 10 else "")
+            key = f"{_M}:EsClient.guarded:{label}|{budget}" + ("|10" if c == 10 else "")
             if h is None:
                 chk.ob("O17.4", inst, False, T, "no handler matches: the library exception escapes unconverted (not a Rally error)", key=key)
                 continue
             try:
-                out = interpret(h, status, budget)
+                out = interpret(h, status, c)
             except (Unsupported, UnknownAtom) as e:
-                chk.unknown("O17.4", f"handler `except {', '.join(names)}` is not a decision over (budget, status class): {e}", h)
+                chk.unknown("O17.4", f"handler `except {', '.join(names)}` is not a decision over (counter, status class): {e}", h)
                 continue
             sleeps = [e for e in out.effects if isinstance(e, ast.Call) and dotted(e.func) == "time.sleep"]
             if kind == "transient" and budget:
@@ -345,7 +330,27 @@ def run(chk):
                 ok = out.kind == "raise" and rc is not None and is_rally_error(rc) and not sleeps
                 want = "raise a Rally error"
             got = out.text() if out.kind != "fallthrough" else ("retry" + (f" after {u(sleeps[0])}" if sleeps else " WITHOUT sleeping"))
-            chk.ob("O17.4", inst, ok, h, f"selected `except {', '.join(names)}` -> {short(ast.parse(got).body[0], 80) if False else got[:90]}; expected: {want}", key=key)
+            chk.ob("O17.4", inst, ok, h, f"attempt {c}: selected `except {', '.join(names)}` -> {got[:90]}; expected: {want}", key=key)
+        # O17.3: whole-loop simulation for this transient class (loop guard on the counter before the increment, handler decision after it)
+        if kind == "transient" and h is not None and loop_ok is not None and (id(h), str(status)) not in simulated:
+            simulated.add((id(h), str(status)))
+            cval, attempts, end = 0, 0, None
+            try:
+                while attempts < 1000:
+                    if not loop_ok(cval):
+                        end = "silent loop exit (returns None)"
+                        break
+                    cval += 1
+                    attempts += 1
+                    o = interpret(h, status, cval)
+                    if o.kind != "fallthrough":
+                        end = o.kind
+                        break
+            except (Unsupported, UnknownAtom) as e:
+                end = None
+            if end is not None:
+                chk.ob("O17.3", f"1 + 10 attempts, then a raise: {label}", attempts == 11 and end == "raise", h, f"simulated `{u(L.test)}` with the handler's own tests: {attempts} attempt(s), ends by {end}",
+                       key=f"{_M}:EsClient.guarded:attempts:{label}")
     # dead arms must agree with their shadow
     for i, (h, names) in enumerate(handlers):
         shadows = [hh for hh, pn in handlers[:i] if all(H.catches(pn, nm) for nm in names)] if i else []
